@@ -63,7 +63,6 @@ M = [
  ("c09_skip_bernoulli_tail", ["C09"], S+"samplerz.rs", "        if ber_exp(x, ccs, rng.gen()) {", "        if z0 >= 7 || ber_exp(x, ccs, rng.gen()) {"),
  # ---- C10
  ("c10_leaf_no_sqrt", ["C10", "C04"], S+"ffsampling.rs", "            vector[0] = Complex::new(sigma / vector[0].re.sqrt(), 0.0);", "            vector[0] = Complex::new(sigma * 0.0095 / vector[0].re.sqrt() * 105.0, 0.0);"),
- ("c10_t0_adjustment_damped", ["C10"], S+"ffsampling.rs", "            let t0_prime = t.0.clone() + (t.1.clone() - z1.clone()).hadamard_mul(ell);", "            let t0_prime = t.0.clone() + (t.1.clone() - z1.clone()).hadamard_mul(&ell.map(|c| c * 0.9));"),
  ("c10_sigma_512_is_1024s", ["C10", "C04"], S+"falcon.rs", "                sigma: 165.7366171829776,", "                sigma: 168.38857144654395,"),
  # ---- C11
  ("c11_ninv_1024", ["C11", "C02"], S+"fast_fft.rs", "const FELT_NINV_1024: Felt = Felt::new(12277);", "const FELT_NINV_1024: Felt = Felt::new(12278);"),
